@@ -10,7 +10,8 @@
    since bbcb995: a timer expiry needs a pending timer, which is what ETimeout means in [step]).
    [raw_timeout] is also what the exported method Timeout() of HEAD does (it has no caller in /repo outside
    tests; the correspondence check drives it as op Y).
-   No finding of this property is open; every _refuted theorem below is about code before the named commit.
+   One finding is open on /repo HEAD, in the session layer: lcp-echo-reply-phase (C05_session_echo_reply_refuted,
+   fixes/C05_lcp_echo_reply_in_opened.patch); every other _refuted theorem is about code before the named commit.
    [rfc1661] is the table of RFC 1661 section 4.1 transcribed independently (Model.v part 2), and
    Rfc2.v a second transcription in the RFC's own row layout.
    All theorems hold for every configuration c = (maxConf, maxTerm, is-LCP), every value of the
@@ -20,7 +21,7 @@
    the k-th originated packet); theorems over all f cover every policy, theorems about histories start from
    [init_id i0 pk0] for EVERY start value i0 and EVERY policy pk0.  HEAD's policy (f.id++ from 0) is
    [head_pick 0]: C05_head_id_policy. *)
-From OV Require Import Common.Base C05.Model C05.Rfc2 C05.Disp C05.Proofs C05.Proofs2 C05.ProofsD.
+From OV Require Import Common.Base C05.Model C05.Rfc2 C05.Disp C05.Sess C05.Proofs C05.Proofs2 C05.ProofsD C05.ProofsS.
 Open Scope Z_scope.
 
 (* ---- the specification side is transcribed twice ------------------------------------------- *)
@@ -483,3 +484,48 @@ Example C05_system_nonvacuous :
   frame_data frameLcpReq = [1; 4; 5; 212].
 Proof. exact system_nonvac. Qed.
 Print Assumptions C05_system_nonvacuous.
+
+(* ---- the session layer above the dispatcher: internal/pppoe/session.go (Sess.v) ----------------------- *)
+
+(* this-layer-down of LCP (onLCPDown): both NCP automata receive Down - they end in Initial or Starting -
+   and the phase falls back to Establish; the LCP automaton itself is not touched by its own callback. *)
+Theorem C05_session_lcp_down_takes_ncps_down :
+  forall c v s,
+  let s' := fst (lcp_callback c v Tld s) in
+  ph s' = PhEstablish /\
+  lower_down (st (s_ipcp (sy s'))) = true /\ lower_down (st (s_ip6 (sy s'))) = true /\
+  s_lcp (sy s') = s_lcp (sy s).
+Proof. exact lcp_down_callback. Qed.
+Print Assumptions C05_session_lcp_down_takes_ncps_down.
+
+(* RFC 1661 5.8 / table cell RXR in Opened for the LCP instance as deployed (its Echo cell is implemented by the
+   host callback): with the repaired callback an Echo-Request is answered exactly when LCP is Opened. *)
+Theorem C05_session_echo_reply :
+  forall c v s id data,
+  echo_fixed c = true ->
+  host_call c v (HEchoReq id data) s =
+  (s, if st_eqb (st (s_lcp (sy s))) Opened && negb (match ph s with PhLACTunneled => true | _ => false end)
+      then [OEchoReply id (skipn 4 data)] else []).
+Proof. exact echo_reply_repaired. Qed.
+Print Assumptions C05_session_echo_reply.
+
+(* Open finding lcp-echo-reply-phase (/repo HEAD): the reply depends on the phase; after LCP has opened and
+   while authentication is pending an Echo-Request carrying a Magic-Number gets no Echo-Reply. *)
+Theorem C05_session_echo_reply_refuted :
+  let s := fst (sess_run scfg_head Repaired (sess_init (head_pick 0) (head_pick 0) (head_pick 0)) lcp_bringup) in
+  st (s_lcp (sy s)) = Opened /\ ph s = PhAuthenticate /\
+  snd (sess_step scfg_head Repaired s echo_req) = [] /\
+  snd (sess_step scfg_rep Repaired s echo_req) = [OEchoReply 5 [170]].
+Proof. exact echo_reply_refuted. Qed.
+Print Assumptions C05_session_echo_reply_refuted.
+
+Example C05_session_nonvacuous :
+  let ops := lcp_bringup ++ [XAuth true; XFrame ProtoIPCP [1; 7; 0; 10; 3; 6; 10; 55; 0; 2] CGood;
+                             XFrame ProtoIPCP [2; 1; 0; 4] CGood] in
+  let s := fst (sess_run scfg_rep Repaired (sess_init (head_pick 0) (head_pick 0) (head_pick 0)) ops) in
+  ph s = PhOpen /\ st (s_lcp (sy s)) = Opened /\ st (s_ipcp (sy s)) = Opened /\ ipcpOpen s = true /\
+  let s' := fst (sess_step scfg_rep Repaired s (XFrame ProtoLCP [5; 9; 0; 4] CGood)) in
+  ph s' = PhEstablish /\ st (s_lcp (sy s')) = Stopping /\ st (s_ipcp (sy s')) = Starting /\
+  st (s_ip6 (sy s')) = Starting /\ ipcpOpen s' = false /\ linkEnded s' = true.
+Proof. exact session_nonvac. Qed.
+Print Assumptions C05_session_nonvacuous.
